@@ -19,6 +19,12 @@ theorem wfs_shift (G : GCtx) (pi : PInfo) (dep0 dep : Nat) (hi0 hi : Nat → Wor
     (arr_disj : ∀ id1 id2, id1 ≠ id2 → G.asize id1 ≠ 0 → G.asize id2 ≠ 0 →
       G.abase id1 + G.asize id1 ≤ G.abase id2 ∨ G.abase id2 + G.asize id2 ≤ G.abase id1)
     (lo_spv : G.lo ≤ G.spv)
+    (str_ok : ∀ l bs ws, (l, bs) ∈ G.strs → X.packString bs = .ok ws →
+      ∃ j k, G.env.ds[j]? = some (.label k l) ∧ G.env.addr j % 4 = 0 ∧ 2 ≤ G.env.addr j / 4 ∧
+        G.env.addr j / 4 + ws.length ≤ G.lo)
+    (str_sep : ∀ l bs ws j k n sym a idx, (l, bs) ∈ G.strs → X.packString bs = .ok ws → G.env.ds[j]? = some (.label k l) →
+      G.cg.tbl.lookup pi.p.name n = .ok sym → sym.scope = "" → G.locOf pi G.lo n = some a → idx < ws.length →
+      G.env.addr j / 4 + idx ≠ a)
     (sp : Nat) (hlo : G.lo ≤ sp) (hact : sp + G.S pi + pi.po + pi.p.formals.length ≤ G.spv + 1) :
     (KOf G pi sp dep hi).WFS exitJ := by
   have hpo := po_pos pi
@@ -111,6 +117,23 @@ theorem wfs_shift (G : GCtx) (pi : PInfo) (dep0 dep : Nat) (hi0 hi : Nat → Wor
         · have : c1 = c2 := by omega
           subst this
           exact wf0.loc_inj n m (G.lo + c1) (hall1 G.lo) (hall2 G.lo)
+    str := by
+      constructor
+      · intro l bs ws hm hp
+        obtain ⟨j, k, hd, h4, h2, hle⟩ := str_ok l bs ws hm hp
+        exact ⟨j, k, hd, h4, h2, Nat.le_trans hle hlo⟩
+      · intro l bs ws j k n a idx hm hp hd hloc hidx
+        have hloc' : G.locOf pi sp n = some a := hloc
+        rcases G.locOf_cases pi sp n a hloc' with ⟨sym', hl', hs', hall⟩ | ⟨sym', c, hl', _, hc, ha, hall⟩
+        · exact str_sep l bs ws j k n sym' a idx hm hp hd hl' hs' (hall G.lo) hidx
+        · obtain ⟨j', k', hd', _, _, hle⟩ := str_ok l bs ws hm hp
+          have hj := labelIdx_of_nodup _ j k l wf0.nodup hd
+          have hj' := labelIdx_of_nodup _ j' k' l wf0.nodup hd'
+          rw [hj] at hj'
+          have : j = j' := Option.some.inj hj'
+          subst this
+          show G.env.addr j / 4 + idx ≠ a
+          omega
     const_sep := by
       intro v l j k n a hmem hd hloc
       have hloc' : G.locOf pi sp n = some a := hloc
@@ -553,13 +576,66 @@ def labelAddrCheck (G : GCtx) : Bool :=
     | some (.label _ _) => decide (G.env.addr j < 2 ^ 32)
     | _ => true
 
+/-- A string literal of the pool: its label is in the image, word-aligned and below the stack; the data words
+    after the label are the packed string of the reference semantics; no global is stored inside it. -/
+def strCheck (G : GCtx) (e : String × List Byte) : Bool :=
+  match X.packString e.2 with
+  | .error _ => true
+  | .ok ws =>
+    match labelIdx G.env.ds e.1 with
+    | none => false
+    | some j =>
+      decide (G.env.addr j % 4 = 0) && decide (2 ≤ G.env.addr j / 4) && decide (G.env.addr j / 4 + ws.length ≤ G.lo) &&
+      (List.range ws.length).all (fun idx =>
+        match G.env.ds[j + 1 + idx]?, ws[idx]? with
+        | some (.data v), some w => decide (BitVec.ofInt 32 v = w) && decide (G.env.addr (j + 1 + idx) = G.env.addr j + 4 * idx)
+        | _, _ => false) &&
+      G.gnames.all (fun n => match G.gloc n with
+        | some a => decide (a < G.env.addr j / 4 ∨ G.env.addr j / 4 + ws.length ≤ a)
+        | none => false)
+
+theorem strCheck_sound (G : GCtx) (l : String) (bs : List Byte) (ws : List Word)
+    (h : strCheck G (l, bs) = true) (hp : X.packString bs = .ok ws) :
+    ∃ j, labelIdx G.env.ds l = some j ∧ G.env.addr j % 4 = 0 ∧ 2 ≤ G.env.addr j / 4 ∧
+      G.env.addr j / 4 + ws.length ≤ G.lo ∧
+      (∀ idx (hi : idx < ws.length), ∃ v, G.env.ds[j + 1 + idx]? = some (.data v) ∧ BitVec.ofInt 32 v = ws[idx] ∧
+        G.env.addr (j + 1 + idx) = G.env.addr j + 4 * idx) ∧
+      (∀ n ∈ G.gnames, ∀ a, G.gloc n = some a → a < G.env.addr j / 4 ∨ G.env.addr j / 4 + ws.length ≤ a) := by
+  unfold strCheck at h
+  simp only at h
+  rw [hp] at h
+  simp only at h
+  cases hj : labelIdx G.env.ds l with
+  | none => rw [hj] at h; simp at h
+  | some j =>
+    rw [hj] at h
+    simp only [Bool.and_eq_true, decide_eq_true_eq, List.all_eq_true, List.mem_range] at h
+    obtain ⟨⟨⟨⟨h1, h2⟩, h3⟩, h4⟩, h5⟩ := h
+    refine ⟨j, rfl, h1, h2, h3, ?_, ?_⟩
+    · intro idx hi
+      have := h4 idx hi
+      rw [List.getElem?_eq_getElem hi] at this
+      cases hd : G.env.ds[j + 1 + idx]? with
+      | none => rw [hd] at this; simp at this
+      | some d =>
+        rw [hd] at this
+        cases d with
+        | data v =>
+          simp only [Bool.and_eq_true, decide_eq_true_eq] at this
+          exact ⟨v, rfl, this.1, this.2⟩
+        | _ => simp at this
+    · intro n hn a ha
+      have := h5 n hn
+      rw [ha] at this
+      simpa using this
+
 def globalCheck (G : GCtx) (imgWords : Nat) : Bool :=
   decide ((labelNames G.env.ds).Nodup) &&
   G.gnames.all (fun n => match G.gloc n with | some a => decide (2 ≤ a) && decide (a < G.lo) | none => false) &&
   G.consts.all (constCheck G) &&
   decide (G.spv + 2 < memWords) && decide (2 ≤ G.lo) && decide (G.lo + X.maxDepth * G.smax ≤ G.spv) &&
   labelAddrCheck G && decide (imgWords ≤ G.lo) && decide (G.env.addr 1 = 4) &&
-  decide ((G.gnames ++ G.pnames).Nodup)
+  decide ((G.gnames ++ G.pnames).Nodup) && G.strs.all (strCheck G)
 
 /-! ### Soundness of the check -/
 
@@ -598,7 +674,7 @@ theorem ok_of_checks (G : GCtx) (imgWords : Nat)
     (hpure : G.pk = true → PureOk G.xc) : G.OK := by
   unfold globalCheck at hglob
   simp only [Bool.and_eq_true, decide_eq_true_eq, List.all_eq_true] at hglob
-  obtain ⟨⟨⟨⟨⟨⟨⟨⟨⟨g1, g2⟩, g3⟩, g4⟩, g5⟩, g6⟩, g7⟩, g8⟩, g9⟩, g10⟩ := hglob
+  obtain ⟨⟨⟨⟨⟨⟨⟨⟨⟨⟨g1, g2⟩, g3⟩, g4⟩, g5⟩, g6⟩, g7⟩, g8⟩, g9⟩, g10⟩, g11⟩ := hglob
   have code_lo : ∀ w, G.lo ≤ w → G.env.isCode w = false := fun w hw => hbeyond w (by omega)
   have hpc : ∀ pi ∈ G.procs,
       (wfsCheck (KOf G pi G.lo 0 noHi) (G.iEpi pi) G.names = true ∧ e1Check G pi = true ∧ e2Check G pi = true ∧
@@ -649,7 +725,7 @@ theorem ok_of_checks (G : GCtx) (imgWords : Nat)
   have wf0 : ∀ pi ∈ G.procs, (KOf G.noArr pi G.lo 0 noHi).WFS (G.iEpi pi) := by
     intro pi hpi
     have hck : wfsCheck (KOf G.noArr pi G.lo 0 noHi) (G.iEpi pi) G.names = wfsCheck (KOf G pi G.lo 0 noHi) (G.iEpi pi) G.names := rfl
-    exact wfsCheck_sound _ _ G.names (fun n a h => locOf_names G pi G.lo n a h) (PCtx.arrOK_of_none _ (fun _ => rfl))
+    exact wfsCheck_sound _ _ G.names (fun n a h => locOf_names G pi G.lo n a h) (PCtx.arrOK_of_none _ (fun _ => rfl)) (PCtx.strOK_of_none _ rfl)
       (hck.trans (hpc pi hpi).1.1)
   have hconst : ∀ v l j k, (v, l) ∈ G.consts → G.env.ds[j]? = some (.label k l) →
       G.env.ds[j + 1]? = some (.data v) ∧ 2 ≤ G.env.addr j / 4 ∧ G.env.addr j / 4 < G.lo := by
@@ -660,9 +736,28 @@ theorem ok_of_checks (G : GCtx) (imgWords : Nat)
     rw [labelIdx_of_nodup _ j k l g1 hd] at this
     simp only [Bool.and_eq_true, decide_eq_true_eq] at this
     exact ⟨this.1.1, this.1.2, this.2⟩
+  have hstr : ∀ l bs ws, (l, bs) ∈ G.strs → X.packString bs = .ok ws →
+      ∃ j k, G.env.ds[j]? = some (.label k l) ∧ G.env.addr j % 4 = 0 ∧ 2 ≤ G.env.addr j / 4 ∧
+        G.env.addr j / 4 + ws.length ≤ G.lo := by
+    intro l bs ws hm hp
+    obtain ⟨j, hj, h1, h2, h3, _⟩ := strCheck_sound G l bs ws (g11 _ hm) hp
+    obtain ⟨k, hlab⟩ := labelIdx_some _ _ _ hj
+    exact ⟨j, k, hlab, h1, h2, h3⟩
   exact {
     wfs := fun pi hpi sp dep hi hlo hact =>
-      wfs_shift G pi 0 dep noHi hi (G.iEpi pi) (wf0 pi hpi) (fun n sym a h1 h2 h3 => (E1 pi hpi n sym a h1 h2 h3).1) (E2 pi hpi) code_lo g4 g5 arr_hi arr_disj (by have := g6; omega) sp hlo hact
+      wfs_shift G pi 0 dep noHi hi (G.iEpi pi) (wf0 pi hpi) (fun n sym a h1 h2 h3 => (E1 pi hpi n sym a h1 h2 h3).1) (E2 pi hpi) code_lo g4 g5 arr_hi arr_disj (by have := g6; omega) hstr
+        (by
+          intro l bs ws j k n sym a idx hm hp hd hl hs hloc hidx
+          obtain ⟨j', hj', _, _, _, _, hsep⟩ := strCheck_sound G l bs ws (g11 _ hm) hp
+          rw [labelIdx_of_nodup _ j k l g1 hd] at hj'
+          have : j = j' := Option.some.inj hj'
+          subst this
+          have hn := (E1 pi hpi n sym a hl hs hloc).2
+          have hg : G.gloc n = some a := by rw [← ((hpc pi hpi).2.2.1 n hn).1]; exact hloc
+          have := hsep n hn a hg
+          omega)
+        sp hlo hact
+    str_ok := hstr
     nodup := g1
     at_pro := fun pi hpi => atB_sound _ _ _ (hpc pi hpi).1.2.2.2.1
     at_body := fun pi hpi => atB_sound _ _ _ (hpc pi hpi).1.2.2.2.2.1
@@ -1296,7 +1391,7 @@ theorem v_setup (pk : Bool) (P : X.Program) (st : Stages) (img : Image) (inp : X
   have hglob' := hglob
   unfold globalCheck at hglob'
   simp only [Bool.and_eq_true, decide_eq_true_eq, List.all_eq_true] at hglob'
-  obtain ⟨⟨⟨⟨⟨⟨⟨⟨⟨_, _⟩, _⟩, _⟩, _⟩, _⟩, _⟩, _⟩, ha1⟩, hnd⟩ := hglob'
+  obtain ⟨⟨⟨⟨⟨⟨⟨⟨⟨⟨gnd, _⟩, _⟩, _⟩, _⟩, _⟩, _⟩, _⟩, ha1⟩, hnd⟩, gstr⟩ := hglob'
   rw [hGg, hGp] at hnd
   have hd1 := hhead.get 1 _ rfl
   obtain ⟨_, hm1, hc1⟩ := hdata 1 _ hd1
@@ -1415,7 +1510,7 @@ theorem v_setup (pk : Bool) (P : X.Program) (st : Stages) (img : Image) (inp : X
       rw [hmap, hfind] at h1
       exact (Option.some.inj h1).symm
     have hg0 : GRep G (v2St0 P inp) (Am.boot img).mem := by
-      refine ⟨?_, ?_, ?_, ?_⟩
+      refine ⟨?_, ?_, ?_, ?_, ?_⟩
       · intro n w _ hl
         have := v2Gv_none P.globals n _ hl
         simp at this
@@ -1466,6 +1561,17 @@ theorem v_setup (pk : Bool) (P : X.Program) (st : Stages) (img : Image) (inp : X
         have hdat := ok.const_data v l j k hmem hd
         obtain ⟨_, hval, _⟩ := hdata (j + 1) v hdat
         rw [hlabel j k l hd] at hval
+        exact hval
+      · intro l bs ws j k hmem hp hd idx hidx
+        obtain ⟨j', hj', _, _, _, hdat, _⟩ := strCheck_sound G l bs ws (gstr _ hmem) hp
+        rw [labelIdx_of_nodup _ j k l gnd hd] at hj'
+        have : j = j' := Option.some.inj hj'
+        subst this
+        obtain ⟨v, hdv, hv, haddr⟩ := hdat idx hidx
+        obtain ⟨_, hval, _⟩ := hdata (j + 1 + idx) v hdv
+        rw [haddr, hv] at hval
+        have : (G.env.addr j + 4 * idx) / 4 = G.env.addr j / 4 + idx := by omega
+        rw [this] at hval
         exact hval
     exact ⟨G, pm, ok, hGenv, hGxc, g, hp, hgv, hpm, hname, cmain, hpmm, hhead, hstub, hg0, hm1', hGspv⟩
 
